@@ -35,6 +35,12 @@ var defaultPure = []string{
 	"(*url.URL).String", "url.Parse", "(*url.URL).Hostname", "(*url.URL).Port",
 	"binary.Size", "math.*", "bits.*", "rand.Read", "rand.ReadContext", "rand.Int", "rand.Intn", "rand.Uint32",
 	"(uuid.UUID).String",
+	// interface methods of the library whose implementations are all read-only: assumed here, and each implementation
+	// is checked against "modifies nothing" by the C20 sweep
+	"dhcpv6.Option.Code", "dhcpv6.Option.ToBytes", "dhcpv6.Option.String", "dhcpv6.Option.LongString",
+	"dhcpv6.DUID.ToBytes", "dhcpv6.DUID.String", "dhcpv6.DUID.Equal", "dhcpv6.DUID.DUIDType",
+	"dhcpv4.OptionValue.ToBytes", "dhcpv4.OptionValue.String", "dhcpv4.OptionCode.Code", "dhcpv4.OptionCode.String",
+	"dhcpv6.NTPSuboption.Code", "dhcpv6.NTPSuboption.ToBytes", "dhcpv6.NTPSuboption.String",
 	"(iana.Arch).String", "(iana.HWType).String", "(iana.StatusCode).String", "(iana.EnterpriseID).String",
 }
 
